@@ -6,6 +6,7 @@ import itertools
 import json
 import os
 import re
+import signal
 
 import fw
 import progen
@@ -143,6 +144,29 @@ def _script_function(ref, fn_model, args, unused_options):
     return ref.run(fn_model['statements'], locals_)
 
 
+class Hang(BaseException):
+    """Raised by the CPU-time watchdog inside a run of the implementation (BaseException: the call wrapper of the runtime
+    swallows Exception)."""
+
+
+HANG_SECONDS = 10
+HANGS = [0]
+
+
+def _on_vtalrm(unused_sig, unused_frame):
+    raise Hang()
+
+
+def guarded(fn):
+    """Run fn() under a CPU-time watchdog: a run that the statement budget fails to stop must not hang the check."""
+    signal.signal(signal.SIGVTALRM, _on_vtalrm)
+    signal.setitimer(signal.ITIMER_VIRTUAL, HANG_SECONDS)
+    try:
+        return fn()
+    finally:
+        signal.setitimer(signal.ITIMER_VIRTUAL, 0)
+
+
 def user_globals(g, wire=None):
     """The user-visible globals (library bindings left out), sorted, in wire form."""
     lib = fw.impl()['library'].SCRIPT_FUNCTIONS
@@ -161,11 +185,14 @@ def run_impl(model, globals_, max_statements):
     options = {'globals': g, 'maxStatements': max_statements, 'logFn': log.append}
     out = {}
     try:
-        out['result'] = progen.value_to_wire(runtime.execute_script(model, options), library.SCRIPT_FUNCTIONS)
+        out['result'] = progen.value_to_wire(guarded(lambda: runtime.execute_script(model, options)), library.SCRIPT_FUNCTIONS)
     except runtime.BareScriptRuntimeError as exc:
         out['error'] = str(exc)
     except parser.BareScriptParserError as exc:
         out['error'] = 'ParserError ' + str(exc).split('\n', 1)[0]
+    except Hang:
+        HANGS[0] += 1
+        out['hostexc'] = f'Hang: still running after {HANG_SECONDS} s of CPU time under maxStatements={max_statements}'
     except RecursionError:
         out['hostexc'] = 'RecursionError'
     except Exception as exc:  # pylint: disable=broad-except
@@ -261,6 +288,8 @@ def impl_oracles(model, globals_, max_statements):
     before = json.dumps(model, sort_keys=True)          # exact structural snapshot (ints and floats print differently)
     first = run_impl(model, globals_, max_statements)
     bad = []
+    if first.get('hostexc', '').startswith('Hang'):
+        return first, [('run-stops-within-budget', f'at most {max_statements} statements start', first['hostexc'])]
     second = run_impl(model, globals_, max_statements)
     after = json.dumps(model, sort_keys=True)
     if after != before:
@@ -397,12 +426,19 @@ def run_chunk(ctx, stream, st, chunk, max_statements, fuel, nontrivial_fn):
         reqs.append({'op': 'exec', 'script': progen.canon_script(model), 'globals': progen.wire_globals(g),
                      'max': max_statements, 'fuel': fuel})
     resps = ctx.driver.batch(reqs) if ctx.driver is not None else [None] * len(reqs)
+    prev = None
     for (case, model, g, tags), resp in zip(chunk, resps):
+        if HANGS[0] >= 3:
+            ctx.notes.append('stream stopped: the implementation did not stop under maxStatements in 3 runs')
+            return
         impl, bad = impl_oracles(model, g, max_statements)
         st.case(case, nontrivial=nontrivial_fn(model, impl), tags=list(tags) + outcome_tags(impl))
         if resp is not None and '<cycle>' not in json.dumps(impl):      # self-containing containers: F18 territory, not compared
             ctx.compare(stream, case, no_neg_zero(impl), no_neg_zero(progen.canon_model_out(resp)))
-        report(ctx, bad, {'model': model, 'globals': g, 'max': max_statements})
+        # the model executed just before is part of the witness: a defect that carries state from one execution to the next
+        # (the property says executions are independent) only shows with that history
+        report(ctx, bad, {'model': model, 'globals': g, 'max': max_statements, 'history': [prev] if prev is not None else []})
+        prev = model
 
 
 def jumps_taken_possible(model, impl):
@@ -496,6 +532,8 @@ def search(ctx):
 
 def replay(witness):
     inp = witness['input']
+    for earlier in inp.get('history', []):
+        run_impl(earlier, inp['globals'], inp['max'])
     _, bad = impl_oracles(inp['model'], inp['globals'], inp['max'])
     return any(name == witness['oracle'] for name, _, _ in bad)
 
